@@ -45,7 +45,12 @@ func (o mqOp) String() string {
 	case "req":
 		return "req"
 	case "blk", "ext":
+		if o.Same {
+			return fmt.Sprintf("%s(r%d,%d,shared)", o.K, o.Req, o.Size)
+		}
 		return fmt.Sprintf("%s(r%d,%d)", o.K, o.Req, o.Size)
+	case "skip":
+		return fmt.Sprintf("skip-first(r%d,%d)", o.Req, o.Size)
 	case "fin":
 		return fmt.Sprintf("fin(r%d)", o.Req)
 	}
@@ -492,6 +497,8 @@ func mqRun(cfg vsched.Config, sc mqScenario) (*mqObs, *vsched.Sched) {
 							rb.SendResponse(lnk, blk.RawData())
 							return nil
 						})
+					case "skip":
+						stream(o.Req).SkipFirstBlocks(int64(o.Size))
 					case "ext":
 						stream(o.Req).Transaction(func(rb responseassembler.ResponseBuilder) error {
 							rb.SendExtensionData(graphsync.ExtensionData{Name: "x/test", Data: basicnode.NewBytes(make([]byte, o.Size))})
@@ -921,6 +928,10 @@ func mqScenariosC15(thorough bool) []mqScenario {
 		{Name: "C15.two-requests-faults", Threads: [][]mqOp{{blk(1, 10), blk(2, 20), blk(1, big), blk(2, big), fin(1), fin(2)}}, Retries: 1, Faults: true, MaxFaults: 2, PreConn: true},
 		{Name: "C15.held-first-send-fails-3-builders", Threads: [][]mqOp{{blk(1, 10), {K: "Q"}, blk(2, 20), blk(1, big), blk(2, big), fin(1), fin(2)}}, Retries: 1, Faults: true, MaxFaults: 1, PreConn: true, Hold: true},
 		{Name: "C15.same-block-two-requests", Threads: [][]mqOp{{{K: "blk", Req: 1, Size: 10, Same: true}, fin(1), {K: "blk", Req: 2, Size: 10, Same: true}, fin(2)}}, Retries: 1, PreConn: true, Faults: true, MaxFaults: 1},
+		// blocks traversed but not transmitted (de-duplicated against another request, repeated within a request,
+		// inside the skipped first blocks) reserve nothing
+		{Name: "C15.deduplicated-blocks", Threads: [][]mqOp{{{K: "blk", Req: 1, Size: 1000, Same: true}, {K: "blk", Req: 2, Size: 1000, Same: true}, {K: "blk", Req: 1, Size: 1000, Same: true}, fin(1), fin(2)}}, Retries: 1, PreConn: true, Faults: true, MaxFaults: 1},
+		{Name: "C15.skipped-first-blocks", Threads: [][]mqOp{{{K: "skip", Req: 1, Size: 2}, blk(1, 1000), blk(1, 2000), blk(1, 10), fin(1)}}, Retries: 1, PreConn: true, Faults: true, MaxFaults: 1},
 		{Name: "C15.extension", Threads: [][]mqOp{{ext(1, 16), blk(1, 10), fin(1)}}, Retries: 1, PreConn: true},
 		{Name: "C15.concurrent-requests-faults", Threads: [][]mqOp{{blk(1, 10), blk(1, big), fin(1)}, {blk(2, 10), blk(2, big), fin(2)}}, Retries: 1, Faults: true, MaxFaults: 2, PreConn: true},
 		{Name: "C15.small-allowance-d", Threads: [][]mqOp{{{K: "D"}}, {blk(1, 10), blk(1, 10), blk(1, 10)}}, Retries: 1, PreConn: true, PerPeer: 15},
